@@ -164,7 +164,7 @@ func genWorldSet(r *rand.Rand, quick bool) *plan.Plan {
 			k.LowMem = true
 		}
 		wp := &plan.Plan{Property: "C03", Knobs: k, Params: map[string]any{}}
-		inc := plan.Incarnation{Boot: "full", SchedSeed: r.Uint64() | 1}
+		inc := plan.Incarnation{Boot: "full", SchedSeed: r.Uint64()>>11 | 1}
 		prime := (pqs || aggs) && r.IntN(3) > 0
 		if w == 0 {
 			// the reference world: one batch, one flush, no accelerators primed
@@ -200,7 +200,7 @@ func genWorldSet(r *rand.Rand, quick bool) *plan.Plan {
 			case x < 7 && pos < len(evs):
 				inc.Ops = append(inc.Ops, plan.Op{Kind: "shutdown"})
 				wp.Incs = append(wp.Incs, inc)
-				inc = plan.Incarnation{Boot: "full", SchedSeed: r.Uint64() | 1}
+				inc = plan.Incarnation{Boot: "full", SchedSeed: r.Uint64()>>11 | 1}
 			}
 		}
 		inc.Ops = append(inc.Ops, plan.Op{Kind: "flush"})
